@@ -252,6 +252,13 @@ def r02d(model: Model, rr: RuleResult):
     ecfg = cfg_of(efi)
     # every colour glyph is renumbered: the loop runs over all the caller's groups (the .notdef group, fixed at gid 0, aside)
     outer = [st for st in walk_body(efi) if isinstance(st, ast.For) and inner in st.body]
+    if len(outer) == 1 and isinstance(outer[0].iter, (ast.ListComp, ast.GeneratorExp)) and len(outer[0].iter.generators) == 1 and outer[0].iter.generators[0].ifs \
+            and norm(outer[0].iter.elt) == norm(outer[0].iter.generators[0].target) and isinstance(outer[0].iter.generators[0].iter, ast.Name):
+        flt = outer[0].iter.generators[0]
+        rr.bad(efi, outer[0], f"the groups that are renumbered are a filtered subset of the caller's groups (only those with {short(flt.ifs[0])}): glyphs left out move to "
+               f"another glyph id when the others are appended behind them, but keep the stale ColorGlyph.glyph_id their document is emitted under",
+               construct=f"_ensure_groups_grouped_in_glyph_order: {norm(flt.iter)} redefined before the renumbering loop")
+        return
     if len(outer) != 1 or not isinstance(outer[0].iter, ast.Name):
         raise AnalysisError("_ensure_groups_grouped_in_glyph_order: loop over the groups not found")
     gname = outer[0].iter.id
